@@ -80,6 +80,7 @@ func runIsoRace(c Case, emit Emitter) {
 	names, progs := isoPrograms(c.Steps)
 	emit(Ev{"ev": "reset", "case": c.ID, "mode": "race", "hooks": isoProbeHooks()})
 	tab := newIsoIntern()
+	isoSoloInProc = true // this process executes nothing but baselines
 	isoSolo(c, names, progs, tab, emit)
 	document.VerifResetGlobals()
 
